@@ -7,7 +7,8 @@
 //	list         value.List nested to depth D, width <= 2, over a base set of
 //	             scalar, string, raw, void and opaque composite values
 //	opaque       value.Opaque(sig, data) for every composite sig of
-//	             Sig(D, 2) (atoms c C w W i I l L f d b s m o; inner atoms
+//	             Sig(D, 2) (atoms c C w W i I l L f d b s m, plus 11 fixed
+//	             signatures containing o; inner atoms
 //	             i s b m C) and every datum of Val(sig) encoded by the
 //	             reference model; dynamic values nested inside the composite
 //	             carry scalars, strings, lists, tuples and maps
@@ -409,6 +410,9 @@ func elemKinds(v value.Value) string {
 
 // ---------------------------------------------------------------- family c
 
+// objectSigs are the composite signatures containing an object reference.
+var objectSigs = []string{"[o]", "(o)", "(oi)", "(so)", "{so}", "{Io}", "(o)<S,a>", "(io)<S,a,b>", "[(oi)]", "([o]s)", "{s(o)}"}
+
 func opaqueOf(d *refmodel.Datum) value.Value {
 	return value.Opaque(d.T.String(), refmodel.Encode(d))
 }
@@ -429,13 +433,20 @@ func opaqueFails(clause string, dl delivery) func(*refmodel.Datum) bool {
 
 func familyOpaque(depth int) (nsigs int, nvals int64) {
 	fam := run.Family("opaque")
-	sigs := enum.Sigs(enum.SigOpts{Depth: depth, Width: 2, Outer: "cCwWiIlLfdbsmo", Inner: "isbmC",
+	// 'o' is not an outer atom of the universe here: every decode of a
+	// signature containing 'o' costs two parses of the ObjectReference
+	// signature (~1 ms); a fixed list of signatures covers it in every
+	// constructor instead
+	sigs := enum.Sigs(enum.SigOpts{Depth: depth, Width: 2, Outer: "cCwWiIlLfdbsm", Inner: "isbmC",
 		OuterKeys: "cCwWiIlLbs", InnerKeys: "isC", Structs: true})
 	var comp []*refmodel.Type
 	for _, s := range sigs {
 		if composite(s) {
 			comp = append(comp, s)
 		}
+	}
+	for _, s := range objectSigs {
+		comp = append(comp, refmodel.MustParse(s))
 	}
 	counts := make([]int64, len(comp))
 	guards := make(chan *enum.Guard, run.Workers+1)
@@ -555,7 +566,7 @@ func main() {
 	finish := func() int {
 		rule := "families: constructor = 13 constructors x Val(T); list = every value.List nested to depth D with 0..2 elements drawn from 11 base values " +
 			"(scalars, string, raw, void, 4 opaque composites) and the lists of the previous depth (at most one nested list per list); " +
-			"opaque = every composite signature of Sig(D,2) x every datum of Val(sig) encoded by the reference model; opaque-atom = 14 atom signatures x Val. " +
+			"opaque = every composite signature of Sig(D,2) (outer atoms c C w W i I l L f d b s m; plus 11 fixed signatures containing o) x every datum of Val(sig) encoded by the reference model; opaque-atom = 14 atom signatures x Val. " +
 			"Every value is evaluated under 6 deliveries ({data+EOF, EOF separate, 8 sentinel bytes follow} x {unfragmented, 1 byte per read}), opaque composites under 3 (exact buffer with data+EOF; sentinel follows; 1 byte per read with a separate EOF); evaluations counts (value, delivery) pairs. " +
 			"A case class is (family, signature shape with struct names dropped | constructor letter and encoding length | list depth, length and element kinds, outcome); " +
 			"distinct_nontrivial counts the distinct classes executed"
